@@ -279,7 +279,8 @@ struct flat_set {
         requires etl::detail::is_transparent_v<Compare>
     [[nodiscard]] constexpr auto count(K const& key) const -> size_type
     {
-        return find(key) == end() ? 0 : 1;
+        auto const range = equal_range(key);
+        return static_cast<size_type>(etl::distance(range.first, range.second));
     }
 
     [[nodiscard]] constexpr auto contains(key_type const& key) const -> bool { return count(key) == 1; }
@@ -288,7 +289,7 @@ struct flat_set {
         requires etl::detail::is_transparent_v<Compare>
     [[nodiscard]] constexpr auto contains(K const& key) const -> bool
     {
-        return count(key) == 1;
+        return find(key) != end();
     }
 
     [[nodiscard]] constexpr auto lower_bound(key_type const& key) -> iterator
